@@ -41,13 +41,13 @@ CONTRACT (the property's own oracle, evaluated on the REAL class).
 ENUMERATOR (deterministic, exhaustive over the stated alphabets).  Universe: catalogs {c1,c2} x dbs {d1,d2} x tables
   {t,u}; column sets A={a:int} B={b:text} AB={a:int,b:text} C={a:decimal} N=None; names T1=[c1.][d1.]t,
   T2=[c1.]d2.t (depth>=2), T3=c2.d1.t (depth 3), U=[c1.][d1.]u.  Nested alphabets per configuration (function
-  alphabet(); sizes at depth 3: TINY 6 < SMALL 9 < MED 20 < FULL 104):
+  alphabet(); sizes at depth 3: TINY 6 < SMALL 9 < MED 18 < FULL 104):
     TINY  add(T1,B) add(T2|U,B) column_names("t") get_column_type("t","a") has_column("t", Column(quoted "a"))
           find(t as stored)
     SMALL + add(T1,A) add(T1,None) column_names(T1)
     MED   + add(T1,C) add(T1,AB) add(U,A) add(T3,B) column_names("d1.t") get_column_type(T1,"a")
-          get_column_type(quoted t, quoted a, dialect=OTHER[dialect]) has_column("t","a") find(T1) find(t,
-          ensure_data_types=True) column_names(exp.Table t)
+          get_column_type(quoted t, quoted a, dialect=OTHER[dialect]) find(t, ensure_data_types=True)
+          column_names(exp.Table t)
     FULL  + add of every universe table x {A,B,None} (T1: all five), T1 spelled upper / quoted-lower / quoted-upper,
           column mapping given as str / list, table given as exp.Table, match_depth=False (same depth, fewer parts,
           more parts), column_names + find on every partially and fully qualified universe name, and on "t" / "d1.t" /
@@ -323,8 +323,6 @@ def alphabet(cfg):
         add(("cn", mid, "str"), MED)
     add(("gct", t1, "a", "str", None), MED)
     add(("gct", hit_t, hit_a, "str", other), MED)
-    add(("has", "t", "a", "str", None), MED)
-    add(("find", st(t1), True, False), MED)
     add(("find", st("t"), True, True), MED)
     add(("cn", "t", "tableobj"), MED)
     # FULL
